@@ -78,6 +78,32 @@ Theorem newline_spec : forall buffer lines w, wrap (concat buffer) 79 (s2l "  ")
 Proof. exact newline_wraps. Qed.
 Print Assumptions newline_spec.
 
+(* a run of write$ / newline$ operations is total: every sequence yields an output text *)
+Theorem output_run_total : forall ops buffer lines, exists out, run_output ops buffer lines = Ok out.
+Proof. exact run_output_total. Qed.
+Print Assumptions output_run_total.
+
+(* write$ alone emits nothing: text stays in the buffer until a newline$ (what is still buffered
+   when the program ends is not part of the output) *)
+Theorem output_writes_are_buffered : forall ss buffer lines,
+  run_output (map inl ss) buffer lines = Ok (concat lines).
+Proof. exact run_output_writes_only. Qed.
+Print Assumptions output_writes_are_buffered.
+
+(* each newline$ emits exactly wrap(everything written since the previous newline$, concatenated in
+   order), then a line end, and starts again with an empty buffer -- for every number of write$s *)
+Theorem output_line_is_wrapped : forall ss u r buffer lines w,
+  wrap (concat (buffer ++ ss)) 79 (s2l "  ") = Ok w ->
+  run_output (map inl ss ++ inr u :: r) buffer lines = run_output r [] (lines ++ [w; [c_nl]]).
+Proof. exact run_output_line. Qed.
+Print Assumptions output_line_is_wrapped.
+
+(* output already emitted is never changed by later operations *)
+Theorem output_is_append_only : forall ops buffer lines out,
+  run_output ops buffer lines = Ok out -> exists t, out = concat lines ++ t.
+Proof. exact run_output_prefix. Qed.
+Print Assumptions output_is_append_only.
+
 (* non-vacuity: a text that is really broken, at width 10 *)
 Example wrap_example :
   wrap_lines (s2l "01234 6789 12345") 9 (s2l "  ") = Some [s2l "01234"; s2l "  6789"; s2l "  12345"]
@@ -89,3 +115,6 @@ Proof. vm_compute. split; [reflexivity|repeat constructor]. Qed.
 Example wrap_long_word_example :
   wrap_lines (s2l "aa bb c") 3 (s2l "  ") = Some [s2l "aa bb"; s2l "  c"].
 Proof. vm_compute. auto. Qed.
+Example output_run_example :
+  run_output [inl (s2l "ab"); inl (s2l " c "); inr tt; inl (s2l "d")] [] [] = Ok (s2l "ab c" ++ [c_nl]).
+Proof. vm_compute. reflexivity. Qed.
